@@ -57,5 +57,14 @@ CancelLoop(S, bp, nacc, fuel) ==
           IN hit \cup CancelLoop({x \in nx : Stops(x, bp) = "no"}, bp, nacc, fuel - 1)
 Boundaries(c, bp, sched, nacc, fuel) == CancelLoop({RunStart(c, sched)}, bp, nacc, fuel)
 
+\* C07: two final states are related when registers (minus R), flags, IFF state, mode and the
+\* halted indication coincide and memory coincides outside the stack bytes below SP
+StackDepth == 64
+BelowSP(x, a) == W(x.r.SP - a) \in 1 .. StackDepth
+Transparent(a, b) ==
+  /\ \A n \in DOMAIN a.r : n = "R" \/ a.r[n] = b.r[n]
+  /\ a.halt = b.halt
+  /\ \A x \in DOMAIN a.m \cup DOMAIN b.m : BelowSP(a, x) \/ Peek(a, x) = Peek(b, x)
+
 RunRAllowed(x) == { IncR(x.c.r.R, 128 - j) : j \in 0 .. (IF x.rs > 127 THEN 127 ELSE x.rs) }
 =============================================================================
